@@ -5,6 +5,9 @@ use serde::{Deserialize, Serialize};
 use crate::core::defs::{SaitoHash, SaitoPublicKey};
 use crate::core::util::crypto::hash;
 
+/// size of a serialized golden ticket: target (32) + random (32) + public key (33)
+pub const GOLDEN_TICKET_SIZE: usize = 97;
+
 #[serde_with::serde_as]
 #[derive(Serialize, Deserialize, Debug, Clone)]
 pub struct GoldenTicket {
